@@ -69,7 +69,7 @@ pub fn run(ctx: &Ctx) -> Option<Report> {
 #[cfg(not(feature = "fuzz-min"))]
 pub fn replay(id: &str, engine: &str, case: &Value) -> Result<(), String> {
     match id {
-        "C01" | "C02" | "C03" | "C04" => c01_04::replay(id, case),
+        "C01" | "C02" | "C03" | "C04" => c01_04::replay(id, engine, case),
         "C05" => c05::replay(engine, case),
         "C06" => c06::replay(case),
         "C07" => c07::replay(engine, case),
